@@ -157,6 +157,21 @@ func decide(t fataler, s *graph.Scenario, plans map[int]graph.WrapPlan, tag stri
 			kit.Rec.Exclude("retry-after-refused-lazy-creation")
 			break
 		}
+		if looker != nil {
+			tolerated := false
+			for _, l := range looker.InstLooked {
+				if strings.HasSuffix(l, "err=true") {
+					tolerated = true
+				}
+			}
+			if tolerated {
+				// a creation failed inside this (or an earlier) lookup and the failure was tolerated by the processor:
+				// retry territory of the known findings (excluded by construction, counted)
+				kit.Rec.Exclude("tolerated-failed-lookup-inside-start")
+				kit.Rec.Case(desc, false, "tolerated-failed-lookup")
+				return
+			}
+		}
 		published[c.Name] = got
 		if _, isW := got.(*zoo.W); isW {
 			labels = append(labels, "final-version-is-wrapper")
